@@ -57,15 +57,18 @@ def worker(spec):
     rng = random.Random(spec["seed"])
 
     if spec["leg"] == "trees":
+        ENDING_NAMES = ["condret", "forloop", "ifelse", "loop_continue", "nested_try", "nested_with", "plain", "tryexc",
+                        "tryexc_else", "tryexc_from", "tryexc_raise", "tryexc_ret", "tryfin", "tryfin_stmt", "whilebreak"]
+
         def gen_tree(depth):
             n_nurs = rng.randint(0, 2) if depth < spec["depth"] else 0
             return dict(nurs=[dict(children=[gen_tree(depth + 1) for _ in range(rng.randint(0, spec["fan"]))],
-                                   ending=rng.choice(["plain", "tryexc", "tryfin", "condret"]),
+                                   ending=rng.choice(ENDING_NAMES),
                                    acm=rng.random() < 0.3)
                               for _ in range(n_nurs)], block=rng.choice(["body", "aexit"]))
 
         def describe(spec_):
-            return "T(%s;%s)" % (",".join("N[%s%s:%s]" % (n["ending"][0:4], "@" if n["acm"] else "",
+            return "T(%s;%s)" % (",".join("N[%s%s:%s]" % (n["ending"], "@" if n["acm"] else "",
                                                            ",".join(describe(c) for c in n["children"]))
                                           for n in spec_["nurs"]), spec_["block"])
 
@@ -80,35 +83,78 @@ def worker(spec):
         async def run_task(spec_):
             await run_nurs(spec_, 0)
 
+        # one function per body shape, generated from source so that the shape's last statement really is
+        # the last statement of the `async with` body (its end falls straight into the exit sequence)
+        ENDINGS = {
+            "plain": ["await H.next(spec_, i)"],
+            "tryexc": ["try:", "    await H.next(spec_, i)", "except KeyError:", "    pass"],
+            "tryexc_raise": ["try:", "    await H.next(spec_, i)", "except KeyError:", "    raise"],
+            "tryexc_from": ["try:", "    await H.next(spec_, i)", "except KeyError as e:", "    raise ValueError() from e"],
+            "tryexc_ret": ["try:", "    await H.next(spec_, i)", "except KeyError:", "    return"],
+            "tryexc_else": ["try:", "    H.noop()", "except KeyError:", "    raise", "else:", "    await H.next(spec_, i)"],
+            "tryfin": ["try:", "    await H.next(spec_, i)", "finally:", "    pass"],
+            "tryfin_stmt": ["try:", "    await H.next(spec_, i)", "finally:", "    H.noop()"],
+            "condret": ["await H.next(spec_, i)", "if H.true():", "    return"],
+            "ifelse": ["if H.true():", "    await H.next(spec_, i)", "else:", "    H.noop()"],
+            "forloop": ["for _ in H.one():", "    await H.next(spec_, i)"],
+            "whilebreak": ["while True:", "    await H.next(spec_, i)", "    break"],
+            "loop_continue": ["for _ in H.one():", "    try:", "        await H.next(spec_, i)", "    except KeyError:",
+                              "        continue"],
+            "nested_with": ["with H.cm():", "    await H.next(spec_, i)"],
+            "nested_try": ["try:", "    try:", "        await H.next(spec_, i)", "    except KeyError:", "        raise",
+                           "finally:", "    H.noop()"],
+        }
+
+        class H(object):
+            @staticmethod
+            def opener(ns):
+                return nursery_in_acm() if ns["acm"] else trio.open_nursery()
+
+            @staticmethod
+            def start(nursery, spec_, ns):
+                for ch in ns["children"]:
+                    nursery.start_soon(run_task, ch)
+                if not ns["children"] and spec_["block"] == "aexit":
+                    nursery.start_soon(trio.sleep_forever)
+
+            @staticmethod
+            async def next(spec_, i):
+                await run_nurs(spec_, i + 1)
+
+            @staticmethod
+            def noop():
+                pass
+
+            @staticmethod
+            def true():
+                return True
+
+            @staticmethod
+            def one():
+                return [0]
+
+            @staticmethod
+            def cm():
+                import contextlib
+                return contextlib.nullcontext()
+
+        VARIANTS = {}
+        for _name, _body in sorted(ENDINGS.items()):
+            _src = ("async def run_nurs_%s(spec_, i, ns):\n"
+                    "    async with H.opener(ns) as nursery:\n"
+                    "        H.start(nursery, spec_, ns)\n" % _name) + "".join("        %s\n" % l for l in _body)
+            _ns = {"H": H}
+            exec(compile(_src, "<c14-nursery-body-%s>" % _name, "exec"), _ns)
+            VARIANTS[_name] = _ns["run_nurs_%s" % _name]
+
         async def run_nurs(spec_, i):
             if i >= len(spec_["nurs"]):
                 if spec_["block"] == "body" or not spec_["nurs"]:
                     await trio.sleep_forever()
                 return
             ns = spec_["nurs"][i]
-            e = ns["ending"]
-            opener = nursery_in_acm() if ns["acm"] else trio.open_nursery()
-            async with opener as nursery:
-                for ch in ns["children"]:
-                    nursery.start_soon(run_task, ch)
-                if not ns["children"] and spec_["block"] == "aexit":
-                    nursery.start_soon(trio.sleep_forever)
-                if e == "plain":
-                    await run_nurs(spec_, i + 1)
-                elif e == "tryexc":
-                    try:
-                        await run_nurs(spec_, i + 1)
-                    except KeyError:
-                        pass
-                elif e == "tryfin":
-                    try:
-                        await run_nurs(spec_, i + 1)
-                    finally:
-                        pass
-                else:
-                    await run_nurs(spec_, i + 1)
-                    if len(ns["children"]) >= 0:
-                        return
+            res.count("ending_" + ns["ending"])
+            await VARIANTS[ns["ending"]](spec_, i, ns)
 
         seen_nodes = {}
 
